@@ -13,7 +13,7 @@ import (
 	"github.com/go-shiori/dom"
 )
 
-var govcC08Kinds = []string{"img", "figure", "video", "youtube", "twitter", "table", "vimeo", "tweetframe"}
+var govcC08Kinds = []string{"img", "figure", "video", "youtube", "twitter", "table", "vimeo", "tweetframe", "picture", "srcsetimg", "figpicture"}
 
 var govcC08Prose = strings.Fields("the committee reported that several members of the expedition had returned from " +
 	"the northern valley with detailed notes about weather patterns and local harvests which were later published in " +
@@ -63,6 +63,12 @@ func (g *govcC08Gen) media(kind string) govcC08Item {
 		it.html = `<img src="/media/` + id + `.png" width="600" height="400" alt="">`
 	case "figure":
 		it.html = `<figure><img src="/media/` + id + `.png" width="600" height="400"><figcaption>Caption of ` + id + `cap</figcaption></figure>`
+	case "picture": // an image without any src attribute on the picture element itself
+		it.html = `<picture><source srcset="/media/` + id + `-wide.webp" media="(min-width: 800px)"><img srcset="/media/` + id + `.png 1x, /media/` + id + `-2x.png 2x" width="600" height="400" alt=""></picture>`
+	case "srcsetimg": // an image that only has a srcset
+		it.html = `<img srcset="/media/` + id + `.png 1x, /media/` + id + `-2x.png 2x" width="600" height="400" alt="">`
+	case "figpicture":
+		it.html = `<figure><picture><source srcset="/media/` + id + `-wide.webp"><img srcset="/media/` + id + `.png 1x" width="600" height="400"></picture><figcaption>Caption of ` + id + `cap</figcaption></figure>`
 	case "video":
 		it.html = `<video controls width="640" height="360"><source src="/media/` + id + `.mp4" type="video/mp4"></video>`
 	case "youtube":
@@ -103,7 +109,7 @@ func TestGovcMediaReplay(t *testing.T) {
 	mediaKept, mediaDropped, leadUsed := 0, 0, 0
 	defer func() {
 		fmt.Printf("GOVC-CASES evaluations=%d distinct_nontrivial=%d rule=%s\n", evals, nontrivial,
-			fmt.Sprintf("all sequences of 2..4 text blocks over {66-word prose paragraph, short link-only line} x media scheme {all eight kinds after every text (3 rotations), one uniform kind (8) with and without a leading media element before any text, kinds rotating per slot (8)}; unique tokens per text block and unique id per media element; oracle uses the OBSERVED retention of the nearest preceding text block; non-trivial = a text block was retained and the document has media (measured: %d media kept after retained text, %d media dropped after dropped/no text, lead-image exception used in %d documents)", mediaKept, mediaDropped, leadUsed))
+			fmt.Sprintf("all sequences of 2..4 text blocks over {66-word prose paragraph, short link-only line} x media scheme {all eleven kinds (img, figure, video, youtube, tweet, table, vimeo, tweet frame, picture, srcset-only img, figure with picture) after every text (3 rotations), one uniform kind (11) with and without a leading media element before any text, kinds rotating per slot (11)}; unique tokens per text block and unique id per media element; oracle uses the OBSERVED retention of the nearest preceding text block; non-trivial = a text block was retained and the document has media (measured: %d media kept after retained text, %d media dropped after dropped/no text, lead-image exception used in %d documents)", mediaKept, mediaDropped, leadUsed))
 	}()
 
 	type scheme struct {
@@ -206,7 +212,7 @@ func TestGovcMediaReplay(t *testing.T) {
 					case !present && prevKept:
 						t.Errorf("GOVC-FAIL %s/%s-%s :: media element %s %s is absent from Result.Node although it comes %s; media after retained text must be retained; document shape: %s", key, it.kind, it.id, it.kind, it.id, where, govcC08Shape(items))
 					case present && !prevKept:
-						if it.kind == "img" || it.kind == "figure" {
+						if it.kind == "img" || it.kind == "figure" || it.kind == "picture" || it.kind == "srcsetimg" || it.kind == "figpicture" {
 							exceptions = append(exceptions, it.kind+" "+it.id)
 						} else {
 							t.Errorf("GOVC-FAIL %s/%s-%s :: media element %s %s is present in Result.Node although it comes %s; only an image or figure may be promoted (as lead image); document shape: %s", key, it.kind, it.id, it.kind, it.id, where, govcC08Shape(items))
